@@ -5,6 +5,8 @@ import SimuVerif.Gen.RemeshConsts
 import SimuVerif.Lemmas.RemeshRefine
 import SimuVerif.Lemmas.SurfaceCheckers
 import SimuVerif.Model.RemeshChecks
+import SimuVerif.Model.RemeshMergeChecks
+import SimuVerif.Lemmas.RemeshMerge
 /-
   C01 — cell surfaces stay closed, consistently oriented 2-manifolds under remeshing.
 
@@ -164,12 +166,16 @@ theorem split_volume (a b c : V3 R) :
 end volume
 
 
-/-! ### the executable bookkeeping model refines the abstract operations (proved for split and swap)
+/-! ### the executable bookkeeping model refines the abstract operations (proved for split, swap and collapse)
 
   `Model/Remesh.lean` is the model the correspondence harness compares bit for bit with the real `cell` /
-  `local_mesh_refiner`.  For an edge split and an edge swap the link to the abstract operations is a theorem,
-  for any scalar type (so also at `Float`); for the collapse (`replace_node` walks the fan around a node) it is
-  validated on every executed operation by the driver and not proved. -/
+  `local_mesh_refiner`.  For an edge split, an edge swap and an edge collapse the link to the abstract operations is a
+  theorem, for any scalar type (so also at `Float`).  The collapse (`replace_node` walks the fan of faces around each end
+  node; `Lemmas/RemeshMerge*.lean`) needs, besides the surface invariant and the link condition, that the edge index is
+  sound AND complete (`EdgeIdxComplete`) and that the live faces around each end node form a single cycle
+  (vertex-manifoldness, `MergeHyp` / `VertexManifold`) — `Inv` alone allows a pinched vertex, for which `replace_node`
+  would rename only one of the fans.  The driver evaluates these hypotheses (`chkMergeHyps`) before every executed
+  collapse; `merge_checks_sound` shows that the Boolean test implies them. -/
 section refinement
 open Simu.Remesh
 variable {R : Type} [Add R] [Sub R] [Mul R] [Div R] [Neg R] [Lit R] [LT R] [LE R] [DecidableLT R] [DecidableLE R] [DecidableEq R]
@@ -221,6 +227,82 @@ theorem swap_checks_sound (c : Cell R) (e : Edge) (h : chkSwapHyps c e = true) :
   obtain ⟨⟨h1, h2⟩, h3⟩ := h
   obtain ⟨a, b, c', d⟩ := split_checks_sound c e h1
   exact ⟨a, b, c', d, edgeIdxSound_of_B (c := c) h2, swapGuard_of_B h3⟩
+/-! #### the collapse -/
+
+/-- the live triangles after the concrete `merge_edge` ARE the abstract collapse of the live triangles before, at the
+    slot `add_node` hands out — equal as lists (slot order), hence also up to rotation (`TriEquiv`).  `MergeHyp`
+    (`Lemmas/RemeshMerge6.lean`): complete index, consistent face free list, the popped edge names the same two faces as
+    its index entry (in either order), the faces around each end node form one fan aligned with the edge, fan form of the link condition, fresh new slot. -/
+theorem merge_refines {fn : Fn R} {k : SplitConsts R} {c c' : Cell R} {e : Edge} {chk chk' : CheckSet}
+    {kA kB : Nat} {FA NA FB NB : Nat → Nat}
+    (h : mergeEdge fn k c e chk = .ok (c', chk')) (H : MergeHyp c e kA kB FA NA FB NB) :
+    Remesh.abs c' = collapseT (Remesh.abs c) e.n1 e.n2 (Simu.C11.newSlot c) ∧
+      TriEquiv (Remesh.abs c') (collapseT (Remesh.abs c) e.n1 e.n2 (Simu.C11.newSlot c)) ∧ FaceFreeOk c' :=
+  ⟨mergeEdge_abs h H, (mergeEdge_refines h H).1, (mergeEdge_refines h H).2.1⟩
+
+/-- the same from hypotheses that do not mention fans: complete index, consistent free list, the popped edge (a check-set
+    copy) names the same two faces as its index entry `E` (in either order), both end nodes are vertex-manifold, the new
+    slot is fresh, surface invariant, link condition -/
+theorem merge_refines_manifold {fn : Fn R} {k : SplitConsts R} {c c' : Cell R} {e E : Edge} {chk chk' : CheckSet}
+    (h : mergeEdge fn k c e chk = .ok (c', chk')) (hI : EdgeIdxComplete c) (hf : FaceFreeOk c)
+    (hentry : getEdge c e.n1 e.n2 = some E)
+    (hord : (E.f1 = e.f1 ∧ E.f2 = e.f2) ∨ (E.f1 = e.f2 ∧ E.f2 = e.f1))
+    (mA : VertexManifold c e.n1) (mB : VertexManifold c e.n2)
+    (hfresh : Fresh (Remesh.abs c) (Simu.C11.newSlot c)) (hInv : Inv (Remesh.abs c))
+    {t1 t2 : Tri} (h1 : findDir (Remesh.abs c) e.n1 e.n2 = some t1) (h2 : findDir (Remesh.abs c) e.n2 e.n1 = some t2)
+    (hl : LinkCond (Remesh.abs c) e.n1 e.n2 (opp t1 e.n1 e.n2) (opp t2 e.n2 e.n1)) :
+    Remesh.abs c' = collapseT (Remesh.abs c) e.n1 e.n2 (Simu.C11.newSlot c) ∧ Inv (Remesh.abs c') ∧
+      FaceFreeOk c' ∧ EdgeIdxComplete c' :=
+  mergeEdge_of_manifold h hI hf hentry hord mA mB hfresh hInv h1 h2 hl
+
+/-- hence the concrete collapse keeps the surface invariant of the live triangle list -/
+theorem concrete_merge_inv {fn : Fn R} {k : SplitConsts R} {c c' : Cell R} {e : Edge} {chk chk' : CheckSet}
+    {kA kB : Nat} {FA NA FB NB : Nat → Nat}
+    (h : mergeEdge fn k c e chk = .ok (c', chk')) (H : MergeHyp c e kA kB FA NA FB NB) (hI : Inv (Remesh.abs c))
+    {t1 t2 : Tri} (h1 : findDir (Remesh.abs c) e.n1 e.n2 = some t1) (h2 : findDir (Remesh.abs c) e.n2 e.n1 = some t2)
+    (hl : LinkCond (Remesh.abs c) e.n1 e.n2 (opp t1 e.n1 e.n2) (opp t2 e.n2 e.n1)) : Inv (Remesh.abs c') :=
+  mergeEdge_inv h H hI h1 h2 hl
+
+/-- the Boolean check the driver evaluates before every executed collapse (`chkMergeHyps`: the two fans are computed by
+    `fanOf`) implies the hypotheses of `merge_refines` and `concrete_merge_inv` -/
+theorem merge_checks_sound (c : Cell R) (e : Edge) (h : chkMergeHyps c e = true) :
+    ∃ kA kB FA NA FB NB, MergeHyp c e kA kB FA NA FB NB ∧ Inv (Remesh.abs c) ∧
+      ∃ t1 t2, findDir (Remesh.abs c) e.n1 e.n2 = some t1 ∧ findDir (Remesh.abs c) e.n2 e.n1 = some t2 ∧
+        LinkCond (Remesh.abs c) e.n1 e.n2 (opp t1 e.n1 e.n2) (opp t2 e.n2 e.n1) :=
+  mergeHyps_of_chk h
+
+/-- what the flag `mhyps` of the driver means: a collapse executed in a state that passed `chkMergeHyps` IS the abstract
+    collapse, keeps the surface invariant, the face free list and the complete index -/
+theorem merge_checked {fn : Fn R} {k : SplitConsts R} {c c' : Cell R} {e : Edge} {chk chk' : CheckSet}
+    (hc : chkMergeHyps c e = true) (h : mergeEdge fn k c e chk = .ok (c', chk')) :
+    Remesh.abs c' = collapseT (Remesh.abs c) e.n1 e.n2 (Simu.C11.newSlot c) ∧ Inv (Remesh.abs c') ∧
+      FaceFreeOk c' ∧ EdgeIdxComplete c' := by
+  obtain ⟨kA, kB, FA, NA, FB, NB, H, hI, t1, t2, h1, h2, hl⟩ := merge_checks_sound c e hc
+  exact ⟨mergeEdge_abs h H, mergeEdge_inv h H hI h1 h2 hl, (mergeEdge_refines h H).2.1, (mergeEdge_refines h H).2.2⟩
+
+/-! #### the edge index stays sound and complete under all three operations -/
+
+theorem merge_keeps_index {fn : Fn R} {k : SplitConsts R} {c c' : Cell R} {e : Edge} {chk chk' : CheckSet}
+    {kA kB : Nat} {FA NA FB NB : Nat → Nat}
+    (h : mergeEdge fn k c e chk = .ok (c', chk')) (H : MergeHyp c e kA kB FA NA FB NB) :
+    EdgeIdxComplete c' ∧ FaceFreeOk c' :=
+  ⟨(mergeEdge_refines h H).2.2, (mergeEdge_refines h H).2.1⟩
+
+theorem split_keeps_index {fn : Fn R} {k : SplitConsts R} {c c' : Cell R} {e : Edge} {chk chk' : CheckSet}
+    (h : splitEdge fn k c e chk = .ok (c', chk')) (hf : FaceFreeOk c) (hI : Inv (Remesh.abs c))
+    (hidx : EdgeIdxComplete c) (hab : e.n1 ≠ e.n2) (he : EdgeFaces c e e.n1 e.n2)
+    (hfresh : Fresh (Remesh.abs c) (Simu.C11.newSlot c)) : EdgeIdxComplete c' ∧ FaceFreeOk c' :=
+  ⟨splitEdge_idx h hf hidx hab he hfresh, (splitEdge_refines h hf hI hab he).2⟩
+
+theorem swap_keeps_index {fn : Fn R} {c c' : Cell R} {e : Edge}
+    (h : swapEdge fn c e = .ok c') (hf : FaceFreeOk c) (hI : Inv (Remesh.abs c))
+    (hab : e.n1 ≠ e.n2) (he : EdgeFaces c e e.n1 e.n2) (hidx : EdgeIdxComplete c)
+    (hg : SwapGuard (Remesh.abs c) e.n1 e.n2) : EdgeIdxComplete c' ∧ FaceFreeOk c' :=
+  ⟨swapEdge_idx h hf hI hab he hidx hg, (swapEdge_refines' h hf hI hab he hidx hg).2⟩
+
+/-- under the surface invariant a complete index is sound: `swap_refines` needs no separate `EdgeIdxSound` -/
+theorem index_sound_of_complete {c : Cell R} (hidx : EdgeIdxComplete c) (hI : Inv (Remesh.abs c)) : EdgeIdxSound c :=
+  edgeIdxSound_of_complete hidx hI
 end refinement
 
 /-! ### non-vacuity -/
@@ -243,5 +325,19 @@ example : Enabled octa (.split 0 2 6) := by
   have e1 : findDir octa 0 2 = some (0, 2, 4) := by decide
   have e2 : findDir octa 2 0 = some (2, 0, 5) := by decide
   rw [e1] at h1; rw [e2] at h2; cases h1; cases h2; decide
+
+/-- non-vacuity of the collapse refinement: the edge 0–2 of the octahedron (model state built by `initCell` over ℚ)
+    passes the driver's check `chkMergeHyps`, `merge_edge` succeeds, and the result is the abstract collapse into node 6 -/
+theorem merge_nonvacuous : Remesh.chkMergeHyps Remesh.octaCell Remesh.e02 = true ∧
+    ∃ c' chk', Remesh.mergeEdge Remesh.fnQ Gen.splitConsts Remesh.octaCell Remesh.e02 [] = .ok (c', chk') ∧
+      Remesh.abs c' = collapseT octa 0 2 6 ∧ Inv (Remesh.abs c') ∧ Remesh.EdgeIdxComplete c' := by
+  have hc : Remesh.chkMergeHyps Remesh.octaCell Remesh.e02 = true := by decide +kernel
+  obtain ⟨⟨c', chk'⟩, h⟩ := Remesh.ok_of_okB
+    (x := Remesh.mergeEdge Remesh.fnQ Gen.splitConsts Remesh.octaCell Remesh.e02 []) (by decide +kernel)
+  obtain ⟨r1, r2, _, r4⟩ := merge_checked hc h
+  have e : collapseT (Remesh.abs Remesh.octaCell) Remesh.e02.n1 Remesh.e02.n2 (Simu.C11.newSlot Remesh.octaCell) =
+      collapseT octa 0 2 6 := by decide +kernel
+  rw [e] at r1
+  exact ⟨hc, c', chk', h, r1, r2, r4⟩
 
 end Simu.C01
